@@ -68,7 +68,13 @@ def canon(v, memo=None, depth=0):
             return ["obj", type(v).__name__, sorted((k, canon(x, memo, depth + 1)) for k, x in d.items())]
         if callable(v):
             return "<callable>"
-        return _ADDR.sub("", repr(v))
+        if isinstance(v, types.GeneratorType):
+            # its repr carries the code object's qualified name (metadata: <genexpr> vs <lambda>.<genexpr>)
+            return "<generator>"
+        r = _ADDR.sub("", repr(v))
+        if r.startswith("<") and " object" in r:
+            return "<%s object>" % type(v).__name__
+        return r
     finally:
         del memo[id(v)]
 
